@@ -219,6 +219,31 @@ class Source:
                 e0 = body.find('\n', j)
                 if e0 < 0:
                     e0 = len(body)
+            # the line that closes the bracket may open another one (`} else {`): go on until the brackets opened so far are closed
+            def _depth(t):
+                d, q = 0, 0
+                while q < len(t):
+                    kk = lex_skip(t, q)
+                    if kk is not None:
+                        q = kk
+                        continue
+                    d += 1 if t[q] in '([{' else (-1 if t[q] in ')]}' else 0)
+                    q += 1
+                return d
+            guard = 0
+            while _depth(body[s0:e0]) > 0 and e0 < len(body) and guard < 50:
+                guard += 1
+                d, q = _depth(body[s0:e0]), e0
+                while q < len(body) and d > 0:
+                    kk = lex_skip(body, q)
+                    if kk is not None:
+                        q = kk
+                        continue
+                    d += 1 if body[q] in '([{' else (-1 if body[q] in ')]}' else 0)
+                    q += 1
+                e0 = body.find('\n', q - 1)
+                if e0 < 0:
+                    e0 = len(body)
             # a statement continued on following lines: take it up to its terminating `;`
             if body[s0:e0].rstrip()[-1:] not in (';', '}'):
                 semi = find_top(body, ';', e0)
